@@ -205,7 +205,12 @@ def parse_with_formats(date_string, date_formats, settings):
             if not ("%y" in date_format or "%Y" in date_format):
                 # before the day is completed: the last day of February depends on it
                 today = datetime.today()
-                date_obj = date_obj.replace(year=today.year)
+                try:
+                    date_obj = date_obj.replace(year=today.year)
+                except ValueError:
+                    # 29 February (a composite directive such as %x carries a year
+                    # of its own) and the current year has none
+                    continue
 
             missing_month = not any(m in date_format for m in ["%m", "%b", "%B"])
             missing_day = "%d" not in date_format
